@@ -39,6 +39,10 @@ def accepts(tok, nullable, v, lazy=False, hidden=False):
         return isinstance(v, int) and not isinstance(v, bool)
     if tok == 'String':
         return isinstance(v, str)
+    if tok == 'Number':
+        return isinstance(v, (int, float)) and not isinstance(v, bool)
+    if tok == 'BorD':
+        return isinstance(v, (resfam.B, resfam.D))
     if tok == 'bool':
         return isinstance(v, bool)
     raise ValueError(tok)
@@ -49,7 +53,12 @@ def more_specific(t1, t2):
     if t1 is None or t2 is None:          # lazy / hidden never compare
         return False
     p1, p2 = resfam.PYTYPE[t1], resfam.PYTYPE[t2]
-    return issubclass(p1, p2) and not issubclass(p2, p1)
+    m1 = p1 if isinstance(p1, tuple) else (p1,)
+    m2 = p2 if isinstance(p2, tuple) else (p2,)
+    if len(m1) > 1 and len(m2) > 1:
+        return False        # two union types never compare
+    return all(issubclass(x, m2) for x in m1) and \
+        not all(issubclass(x, m1) for x in m2)
 
 
 class Slot:
